@@ -249,6 +249,45 @@ RESIDUAL: List[Tuple[str, str, Callable[[Any], Tuple[bool, str]]]] = [
 ]
 
 
+def resize_while_iterating(ctx: Any, R: str, funcs: List[FuncInfo]) -> List[Ob]:
+    """A collection is not resized while it is being iterated (see the comment in the body)."""
+    obs: List[Ob] = []
+    # a collection is not resized while it is being iterated: a deque, dict or set raises RuntimeError at the next step of the loop
+    # (a list silently skips an element); taking a snapshot first, or leaving the loop right after the change, is the way out
+    MUT = {'remove', 'pop', 'popleft', 'popitem', 'append', 'appendleft', 'add', 'discard', 'clear', 'insert', 'extend', 'update', 'setdefault'}
+    for f in funcs:
+        cfg = None
+        for lp in walk_local_ordered(f.node):
+            if not isinstance(lp, ast.For):
+                continue
+            it = lp.iter
+            while isinstance(it, ast.Call) and isinstance(it.func, ast.Attribute) and it.func.attr in ('items', 'keys', 'values') and not it.args:
+                it = it.func.value
+            if not isinstance(it, (ast.Attribute, ast.Name)):
+                continue  # a call (list(x), x.copy(), sorted(x), reversed(list(x)) ...) iterates a snapshot
+            ctext = norm(it)
+            td = ctx.ty.type_of(f.module.name, it)
+            names = ctx.ty.inst_names(td) if td else []
+            if not any(n_.rsplit('.', 1)[-1] in ('deque', 'dict', 'set', 'list', 'Dict', 'Set', 'List', 'Deque', 'defaultdict', 'OrderedDict') for n_ in names):
+                continue
+            for x in [y for st_ in lp.body for y in ast.walk(st_)]:
+                hit = None
+                if isinstance(x, ast.Call) and isinstance(x.func, ast.Attribute) and x.func.attr in MUT and norm(x.func.value) == ctext:
+                    hit = x
+                if isinstance(x, ast.Delete) and any(isinstance(t, ast.Subscript) and norm(t.value) == ctext for t in x.targets):
+                    hit = x
+                if hit is None or hit is lp.iter:
+                    continue
+                if cfg is None:
+                    cfg = cfg_of(f.node)
+                hn = next((n for n in cfg.nodes if any(y is hit for e in n.exprs() for y in ast.walk(e)) or n.ast is hit), None)
+                head = next((n for n in cfg.nodes if n.kind == 'for' and n.ast is lp), None)
+                back = hn is not None and head is not None and cfg.path_avoiding(hn, lambda n: n is head, lambda n, lp=lp, head=head: n is not head and lp not in n.in_loop) is not None
+                if back:
+                    obs.append(ob(R, f, hit, f'`{ctext}` is not resized inside the loop that iterates it (RuntimeError for a deque / dict / set; a list skips an element)', False, f'the loop at line {lp.lineno} goes on iterating `{ctext}` after `{norm(hit)[:60]}`'))
+    return obs
+
+
 @rule('C15.ESCAPE', 'N', expect_min=10)
 def escape(ctx: Any) -> List[Ob]:
     """Exception containment at the datagram-driven event-loop entry points (the
@@ -342,6 +381,7 @@ def escape(ctx: Any) -> List[Ob]:
                         todo.append((s2, exc))
             if hit is not None:
                 obs.append(ob(R, f, hit.ast, f'`{var}` is bound on every path that reaches this use (a handler that swallows the exception of the statement binding it must not fall through to the use)', False, f'after an exception is caught, line {hit.line} reads `{var}` although the statement that assigns it did not complete: UnboundLocalError escapes into the event loop'))
+    obs.extend(resize_while_iterating(ctx, R, sorted(ctx.cg.closure(roots), key=lambda x: x.full)))
     # resolving a future that is already done or cancelled raises InvalidStateError: every set_result / set_exception reachable
     # from the entry points is reached only through the `not done` edge of a test of that very future (a waiter can be
     # cancelled, or resolved by its time-out, at any moment before the datagram that would wake it)
